@@ -1,8 +1,9 @@
-// Package fs binds spec/AtomicFile.tla to what the kernel sees when the real code
+// Package fs binds spec/FileSys.tla to what the kernel sees when the real code
 // saves the database (db.kv.save) or the client cache (FileCache.Write): a child
-// process performs one real mutating call under strace; its system calls on the
-// state directory become a trace that TLC validates, and every one of them is in
-// turn made to fail (injected errno) or to be the instant of a SIGKILL (C04, C13).
+// process performs one real mutating call under strace; the system calls that
+// create, write, flush, rename or remove files become a trace that TLC validates
+// against FileSys (whatever names and order the writer uses), and every traced call
+// is in turn made to fail (injected errno) or to be the instant of a SIGKILL (C04, C13).
 package fs
 
 import (
@@ -42,33 +43,39 @@ var scenarios = []scenario{
 }
 
 type sysEvent struct {
-	Ev      string `json:"ev"`
-	Size    int    `json:"size,omitempty"`
-	SameDir bool   `json:"samedir"`
-	Excl    bool   `json:"excl"`
-	Mode    int    `json:"mode"`
-	Bytes   int    `json:"bytes,omitempty"`
-	FromTmp bool   `json:"fromtmp"`
-	ToLive  bool   `json:"tolive"`
-	Tmp     bool   `json:"tmp"`
-	Result  string `json:"result,omitempty"`
-	Step    string `json:"-"` // protocol step this call is (for the fault table)
-	Inject  bool   `json:"-"`
-	Raw     string `json:"-"`
+	Ev     string `json:"ev"`
+	Path   string `json:"path"` // label of a file the save created ("f1", "f2", ...), "?" if unknown
+	Mode   int    `json:"mode"`
+	Bytes  int    `json:"bytes"`
+	Size   int    `json:"size"`
+	Result string `json:"result"`
+	Raw    string `json:"-"`
 }
 
 var lineRe = regexp.MustCompile(`^(\d+)\s+(\w+)\((.*)\)\s+=\s+(-?\d+|\?)(.*)$`)
 
 type parsed struct {
-	Events    []sysEvent // calls on the state directory inside the MARK window
-	Killed    bool
-	Injected  *sysEvent // the call that was made to fail / was the kill point (nil: none inside the window on the state dir)
-	InjectedAny bool    // an injection happened somewhere
-	LiveWrite bool      // the live file was opened for writing
-	Notes     []string
+	Events      []sysEvent // calls inside the MARK window that create / write / flush / rename / remove files
+	Killed      bool
+	KilledIn    bool   // the process died inside the MARK window (or at its closing marker)
+	KillCall    string // the call at whose entry it died
+	Injected    bool   // a call inside the window was made to fail
+	InjCall     string
+	InjRelated  bool // ... and it was one of the calls above
+	InjectedAny bool // an injection happened somewhere (also outside the window)
+	AtMarkEnd   bool // the injected / killed call was the closing marker itself
+	LiveWrite   bool
+	Notes       []string
 }
 
-// parseStrace turns strace output into protocol events for paths under stateDir.
+type fdInfo struct {
+	path string
+	kind string // "new" (created by the save), "live", "livero", "dir", "other"
+}
+
+// parseStrace turns strace output into FileSys events. Nothing here knows how the writer names its files
+// or in which order it works: a file is "new" if it was created (O_CREAT) after the opening marker and is
+// not the live path; the live path and its directory are given.
 func parseStrace(path, stateDir, live string) parsed {
 	var p parsed
 	f, err := os.Open(path)
@@ -77,12 +84,20 @@ func parseStrace(path, stateDir, live string) parsed {
 		return p
 	}
 	defer f.Close()
-	fds := map[string]string{} // fd -> path (state dir files only)
-	inWin := false
+	fds := map[string]fdInfo{}
+	labels := map[string]string{} // path -> label
+	label := func(pth string) string {
+		if l, ok := labels[pth]; ok {
+			return l
+		}
+		return "?"
+	}
+	inWin, sawBegin := false, false
 	sc := bufio.NewScanner(f)
 	sc.Buffer(make([]byte, 1<<20), 1<<26)
-	pending := map[string]string{} // pid -> unfinished prefix
-	var lastLine string
+	pending := map[string]string{}
+	var lastCall, lastArgs string
+	unq := func(s string) string { return strings.Trim(strings.TrimSpace(s), `"`) }
 	for sc.Scan() {
 		line := sc.Text()
 		if strings.Contains(line, "+++ killed by SIGKILL +++") {
@@ -92,7 +107,9 @@ func parseStrace(path, stateDir, live string) parsed {
 		if strings.Contains(line, "<unfinished ...>") {
 			pid := strings.Fields(line)[0]
 			pending[pid] = strings.Replace(line, " <unfinished ...>", "", 1)
-			lastLine = line
+			if m := regexp.MustCompile(`^\d+\s+(\w+)\((.*)$`).FindStringSubmatch(pending[pid]); m != nil {
+				lastCall, lastArgs = m[1], m[2]
+			}
 			continue
 		}
 		if strings.Contains(line, "resumed>") {
@@ -103,45 +120,48 @@ func parseStrace(path, stateDir, live string) parsed {
 				delete(pending, pid)
 			}
 		}
-		lastLine = line
 		m := lineRe.FindStringSubmatch(line)
 		if m == nil {
 			continue
 		}
 		call, args, ret, rest := m[2], m[3], m[4], m[5]
+		lastCall, lastArgs = call, args
 		injected := strings.Contains(rest, "(INJECTED)")
 		if injected {
 			p.InjectedAny = true
 		}
 		failed := strings.HasPrefix(ret, "-")
 		if call == "write" && strings.HasPrefix(args, "2, \"MARK-BEGIN") {
-			inWin = true
+			inWin, sawBegin = true, true
 			continue
 		}
 		if call == "write" && strings.HasPrefix(args, "2, \"MARK-END") {
 			inWin = false
 			if injected {
-				p.Injected = &sysEvent{Ev: "markend", Step: "done", Inject: true}
+				p.Injected, p.AtMarkEnd, p.InjCall = true, true, "write"
 			}
 			continue
 		}
+		// add records one call that matters; related says whether an injected failure of it concerns the save
 		add := func(e sysEvent) {
 			e.Raw = line
 			if !inWin {
 				return
 			}
 			if injected {
-				e.Inject = true
-				ec := e
-				p.Injected = &ec
+				p.Injected, p.InjRelated, p.InjCall = true, true, call
 				p.Events = append(p.Events, sysEvent{Ev: "fail", Raw: line})
 				return
 			}
 			if failed {
-				p.Notes = append(p.Notes, "state-directory call failed without injection: "+line)
+				p.Events = append(p.Events, sysEvent{Ev: "fail", Raw: line}) // failed by itself: no effect either
+				p.Notes = append(p.Notes, "a call failed without injection: "+line)
 				return
 			}
 			p.Events = append(p.Events, e)
+		}
+		if injected && inWin && !p.Injected {
+			p.Injected, p.InjCall = true, call // may be refined to "related" below
 		}
 		switch call {
 		case "openat":
@@ -149,98 +169,177 @@ func parseStrace(path, stateDir, live string) parsed {
 			if len(q) < 3 {
 				continue
 			}
-			pth := strings.Trim(q[1], `"`)
-			if !strings.HasPrefix(pth, stateDir) {
-				continue
-			}
+			pth := unq(q[1])
 			flags := q[2]
-			if strings.Contains(flags, "O_CREAT") {
+			writable := strings.Contains(flags, "O_WRONLY") || strings.Contains(flags, "O_RDWR") || strings.Contains(flags, "O_TRUNC") || strings.Contains(flags, "O_APPEND")
+			creat := strings.Contains(flags, "O_CREAT")
+			switch {
+			case pth == live:
+				if writable || creat {
+					if inWin {
+						p.LiveWrite = true
+					}
+					add(sysEvent{Ev: "touchlive"})
+					if !failed {
+						fds[ret] = fdInfo{pth, "live"}
+					}
+				} else if !failed {
+					fds[ret] = fdInfo{pth, "livero"}
+				}
+			case creat && sawBegin && inWin:
 				mode := 0
 				if len(q) > 3 {
-					mv, _ := strconv.ParseInt(q[3], 8, 32)
+					mv, _ := strconv.ParseInt(strings.TrimSpace(q[3]), 8, 32)
 					mode = int(mv)
 				}
-				step := "start"
-				if !failed {
-					fds[ret] = pth
+				if !failed && !injected {
+					labels[pth] = fmt.Sprintf("f%d", len(labels)+1)
+					fds[ret] = fdInfo{pth, "new"}
 				}
-				add(sysEvent{Ev: "create", SameDir: filepath.Dir(pth) == filepath.Dir(live) && pth != live, Excl: strings.Contains(flags, "O_EXCL"), Mode: mode, Step: step})
-			} else if strings.Contains(flags, "O_WRONLY") || strings.Contains(flags, "O_RDWR") || strings.Contains(flags, "O_TRUNC") || strings.Contains(flags, "O_APPEND") {
-				if pth == live && inWin {
-					p.LiveWrite = true
-					p.Events = append(p.Events, sysEvent{Ev: "openlive-write", Raw: line})
-				}
+				add(sysEvent{Ev: "create", Path: label(pth), Mode: mode})
+			case pth == stateDir || pth == strings.TrimSuffix(stateDir, "/"):
 				if !failed {
-					fds[ret] = pth
+					fds[ret] = fdInfo{pth, "dir"}
+				}
+				if injected && inWin {
+					p.InjRelated = true
+					p.Events = append(p.Events, sysEvent{Ev: "fail", Raw: line})
+				}
+			default:
+				if !failed {
+					if _, isNew := labels[pth]; isNew {
+						fds[ret] = fdInfo{pth, "new"} // reopened
+					} else {
+						fds[ret] = fdInfo{pth, "other"}
+					}
 				}
 			}
 		case "write", "pwrite64":
 			q := strings.SplitN(args, ", ", 2)
-			pth, ok := fds[q[0]]
+			fi, ok := fds[q[0]]
 			if !ok {
 				continue
 			}
 			n, _ := strconv.Atoi(ret)
-			if pth == live && inWin {
-				p.LiveWrite = true
-				p.Events = append(p.Events, sysEvent{Ev: "openlive-write", Raw: line})
-				continue
+			switch fi.kind {
+			case "live":
+				if inWin {
+					p.LiveWrite = true
+				}
+				add(sysEvent{Ev: "touchlive"})
+			case "new":
+				add(sysEvent{Ev: "write", Path: label(fi.path), Bytes: n})
 			}
-			add(sysEvent{Ev: "write", Bytes: n, Step: "writing"})
 		case "ftruncate":
 			q := strings.SplitN(args, ", ", 2)
-			if pth, ok := fds[q[0]]; ok && pth == live && inWin {
-				p.LiveWrite = true
-				p.Events = append(p.Events, sysEvent{Ev: "openlive-write", Raw: line})
+			if fi, ok := fds[q[0]]; ok && (fi.kind == "live" || fi.kind == "livero") {
+				if inWin {
+					p.LiveWrite = true
+				}
+				add(sysEvent{Ev: "touchlive"})
+			}
+		case "truncate":
+			q := strings.SplitN(args, ", ", 2)
+			if unq(q[0]) == live {
+				if inWin {
+					p.LiveWrite = true
+				}
+				add(sysEvent{Ev: "touchlive"})
 			}
 		case "fchmod":
 			q := strings.Split(args, ", ")
-			if _, ok := fds[q[0]]; !ok {
+			fi, ok := fds[q[0]]
+			if !ok || fi.kind != "new" {
 				continue
 			}
-			mv, _ := strconv.ParseInt(q[1], 8, 32)
-			add(sysEvent{Ev: "chmod", Mode: int(mv), Step: "chmod"})
+			mv, _ := strconv.ParseInt(strings.TrimSpace(q[1]), 8, 32)
+			add(sysEvent{Ev: "chmod", Path: label(fi.path), Mode: int(mv)})
+		case "fchmodat", "chmod":
+			q := strings.Split(args, ", ")
+			pi := 0
+			if call == "fchmodat" {
+				pi = 1
+			}
+			if len(q) < pi+2 {
+				continue
+			}
+			if _, ok := labels[unq(q[pi])]; ok {
+				mv, _ := strconv.ParseInt(strings.TrimSpace(q[pi+1]), 8, 32)
+				add(sysEvent{Ev: "chmod", Path: label(unq(q[pi])), Mode: int(mv)})
+			}
 		case "fsync", "fdatasync":
-			if _, ok := fds[args]; !ok {
+			fi, ok := fds[strings.TrimSpace(args)]
+			if !ok {
 				continue
 			}
-			add(sysEvent{Ev: "fsync", Step: "chmodded"})
+			switch fi.kind {
+			case "new":
+				add(sysEvent{Ev: "fsync", Path: label(fi.path)})
+			case "dir":
+				add(sysEvent{Ev: "fsyncdir"})
+			}
 		case "close":
-			if _, ok := fds[args]; !ok {
+			fi, ok := fds[strings.TrimSpace(args)]
+			if !ok {
 				continue
 			}
-			add(sysEvent{Ev: "close", Step: "synced"})
+			if fi.kind == "new" {
+				add(sysEvent{Ev: "close", Path: label(fi.path)})
+			} else if fi.kind == "dir" && injected && inWin {
+				p.InjRelated = true
+				p.Events = append(p.Events, sysEvent{Ev: "fail", Raw: line})
+			}
 			if !injected {
-				delete(fds, args)
+				delete(fds, strings.TrimSpace(args))
 			}
 		case "renameat", "renameat2", "rename":
 			q := strings.Split(args, ", ")
 			var from, to string
 			if call == "rename" {
-				from, to = strings.Trim(q[0], `"`), strings.Trim(q[1], `"`)
-			} else {
-				from, to = strings.Trim(q[1], `"`), strings.Trim(q[3], `"`)
+				from, to = unq(q[0]), unq(q[1])
+			} else if len(q) >= 4 {
+				from, to = unq(q[1]), unq(q[3])
 			}
-			if !strings.HasPrefix(to, stateDir) && !strings.HasPrefix(from, stateDir) {
-				continue
+			switch {
+			case to == live:
+				add(sysEvent{Ev: "rename", Path: label(from)})
+				if !failed && !injected {
+					delete(labels, from)
+				}
+			case from == live:
+				add(sysEvent{Ev: "loselive"})
+			default:
+				if l, ok := labels[from]; ok && !failed && !injected {
+					delete(labels, from)
+					labels[to] = l // moved: same file under another name
+				}
 			}
-			add(sysEvent{Ev: "rename", FromTmp: strings.HasPrefix(from, live+".tmp"), ToLive: to == live, Step: "closed"})
 		case "unlinkat", "unlink":
 			q := strings.Split(args, ", ")
-			pth := strings.Trim(q[0], `"`)
-			if call == "unlinkat" {
-				pth = strings.Trim(q[1], `"`)
+			pth := unq(q[0])
+			if call == "unlinkat" && len(q) > 1 {
+				pth = unq(q[1])
 			}
-			if !strings.HasPrefix(pth, stateDir) {
-				continue
+			if pth == live {
+				add(sysEvent{Ev: "loselive"})
+			} else if _, ok := labels[pth]; ok {
+				add(sysEvent{Ev: "unlink", Path: label(pth)})
+				if !failed && !injected {
+					delete(labels, pth)
+				}
 			}
-			add(sysEvent{Ev: "unlink", Tmp: strings.HasPrefix(pth, live+".tmp"), Step: "cleanup"})
 		}
 	}
-	if p.Killed && p.Injected == nil {
-		// the kill point is the last call printed: find out whether it was ours
-		m := regexp.MustCompile(`^(\d+)\s+(\w+)\((.*)$`).FindStringSubmatch(lastLine)
-		_ = m
+	if p.Killed {
+		p.KillCall = lastCall
+		switch {
+		case lastCall == "write" && strings.HasPrefix(lastArgs, "2, \"MARK-END"):
+			p.KilledIn, p.AtMarkEnd = true, true
+		case lastCall == "write" && strings.HasPrefix(lastArgs, "2, \"MARK-BEGIN"):
+			p.KilledIn = false
+		default:
+			p.KilledIn = inWin
+		}
 	}
 	return p
 }
@@ -254,6 +353,7 @@ type childResult struct {
 	After    []vault.SecState `json:"after"`
 	OpenErr  string           `json:"openerr"`
 	CacheGot string           `json:"cachegot"`
+	LiveSize int              `json:"livesize"`
 }
 
 type runner struct {
@@ -265,7 +365,7 @@ type runner struct {
 
 func (r *runner) run(dir string, sc scenario, inject string, withSetup bool) (childResult, parsed, error) {
 	args := []string{"-f", "-o", filepath.Join(dir, "strace.txt"), "-s", "16",
-		"-e", "trace=openat,write,pwrite64,ftruncate,fchmod,fsync,fdatasync,close,renameat,renameat2,rename,unlinkat,unlink"}
+		"-e", "trace=openat,write,pwrite64,ftruncate,truncate,fchmod,fchmodat,chmod,fsync,fdatasync,close,renameat,renameat2,rename,unlinkat,unlink"}
 	if inject != "" {
 		args = append(args, "-e", "inject="+inject)
 	}
@@ -362,7 +462,7 @@ func listDir(dir string) []string {
 	return out
 }
 
-// TestAtomicFile: dry runs (protocol trace), then every injection point.
+// TestAtomicFile: dry runs (the calls as the kernel saw them), then every injection point.
 func TestAtomicFile(t *testing.T) {
 	dir := vh.Dir(t)
 	res := vh.NewResult(t, "fs-atomic")
@@ -381,16 +481,7 @@ func TestAtomicFile(t *testing.T) {
 	defer w.Close()
 	only := os.Getenv("VERIF_SCENARIOS")
 	cases := 0
-	emit := func(p parsed, result string) {
-		size := 0
-		for _, e := range p.Events {
-			if e.Ev == "write" {
-				size += e.Bytes
-			}
-		}
-		if size == 0 {
-			size = 1
-		}
+	emit := func(p parsed, size int, result string) {
 		w.Put(sysEvent{Ev: "begin", Size: size})
 		for _, e := range p.Events {
 			w.Put(e)
@@ -420,8 +511,8 @@ func TestAtomicFile(t *testing.T) {
 				t.Fatalf("setup %s: %v %s", sc.Name, err, out)
 			}
 		}
-		preHash := hashFile(live)
 		var pre []vault.SecState
+		oldCache, _ := os.ReadFile(live)
 		if !sc.Cache {
 			var err error
 			pre, err = openAndObserve(base, kek)
@@ -438,19 +529,19 @@ func TestAtomicFile(t *testing.T) {
 			}
 			return d
 		}
-		// ---- dry run: the protocol as the kernel saw it
+		// ---- dry run: the calls as the kernel saw them
 		d0 := fresh("dry")
 		cr, p, err := r.run(d0, sc, "", false)
 		if err != nil || cr.Class != "ok" || cr.OpenErr != "" {
 			t.Fatalf("dry run %s failed: %v %+v", sc.Name, err, cr)
 		}
-		if len(p.Events) < 4 && !p.LiveWrite {
-			t.Fatalf("dry run %s: strace saw only %d state-directory calls (tool trouble)", sc.Name, len(p.Events))
+		if len(p.Events) < 2 {
+			t.Fatalf("dry run %s: strace saw only %d file calls (tool trouble)", sc.Name, len(p.Events))
 		}
-		emit(p, "ok")
-		if p.LiveWrite {
-			res.Violate("live-written "+sc.Name, "the live file was opened for writing / written in place during "+sc.Name, map[string]any{"scenario": sc.Name, "events": p.Events})
-		}
+		liveRel := strings.TrimPrefix(live, base)
+		// the size of the new content is what the live file measures right after the call (it differs from run to run:
+		// key identifiers of varying length); only runs that re-bind the live name look at it
+		emit(p, max(cr.LiveSize, 1), "ok")
 		var post []vault.SecState
 		postCache := ""
 		if sc.Cache {
@@ -465,7 +556,7 @@ func TestAtomicFile(t *testing.T) {
 				t.Fatalf("scenario %s does not change the state", sc.Name)
 			}
 		}
-		for _, e := range listDir(filepath.Dir(filepath.Join(d0, strings.TrimPrefix(live, base)))) {
+		for _, e := range listDir(filepath.Dir(filepath.Join(d0, liveRel))) {
 			if !strings.HasSuffix(e, "(600)") {
 				res.Violate("mode "+sc.Name, "file not owner-only after "+sc.Name+": "+e, nil)
 			}
@@ -477,13 +568,13 @@ func TestAtomicFile(t *testing.T) {
 			}
 			return s
 		}()})
-		// ---- every injection point
+		// ---- every injection point: each traced kind of call, the N-th occurrence for every N the save reaches
 		type inj struct{ call, fault string }
 		var injs []inj
 		for _, c := range []string{"openat", "write", "fchmod", "fsync", "close", "renameat"} {
 			injs = append(injs, inj{c, "error=EIO"}, inj{c, "signal=KILL"})
 		}
-		injs = append(injs, inj{"write", "error=ENOSPC"}, inj{"renameat", "error=EXDEV"}, inj{"openat", "error=EMFILE"})
+		injs = append(injs, inj{"write", "error=ENOSPC"}, inj{"renameat", "error=EXDEV"}, inj{"openat", "error=EMFILE"}, inj{"fsync", "error=ENOSPC"})
 		seen := map[string]bool{}
 		for _, in := range injs {
 			misses := 0
@@ -491,84 +582,90 @@ func TestAtomicFile(t *testing.T) {
 				d := fresh(fmt.Sprintf("%s-%s-%d", in.call, strings.ReplaceAll(in.fault, "=", ""), n))
 				cr, p, _ := r.run(d, sc, fmt.Sprintf("%s:%s:when=%d", in.call, in.fault, n), false)
 				kill := strings.HasPrefix(in.fault, "signal")
-				hit := p.Injected
-				if kill && p.Killed && hit == nil {
-					// the process died at the entry of the n-th call; identify it from the dry run order
-					hit = killPoint(p, filepath.Join(d, "strace.txt"))
-				}
 				if !p.InjectedAny && !p.Killed {
 					misses++ // n is beyond the number of such calls
 					os.RemoveAll(d)
 					continue
 				}
-				if hit == nil || (!kill && hit.Ev == "markend") {
+				if (kill && !p.KilledIn) || (!kill && (!p.Injected || p.AtMarkEnd)) {
 					os.RemoveAll(d) // the fault hit a call outside the operation (runtime, setup, marker): not our case
 					continue
 				}
-				ck := fmt.Sprintf("%s/%s/%s/%s#%d", sc.Name, in.call, in.fault, hit.Step, countEv(p.Events, hit.Ev))
+				ck := fmt.Sprintf("%s/%s/%s/after-%d-calls", sc.Name, in.call, in.fault, len(p.Events))
 				if seen[ck] {
 					os.RemoveAll(d)
 					continue
 				}
 				seen[ck] = true
 				cases++
-				where := fmt.Sprintf("%s: %s at %s (%s)", sc.Name, in.fault, hit.Ev, hit.Step)
-				liveD := filepath.Join(d, strings.TrimPrefix(live, base))
+				evs := []string{}
+				for _, e := range p.Events {
+					evs = append(evs, e.Ev)
+				}
+				where := fmt.Sprintf("%s: %s at the %d. %s of the process, after the calls [%s]", sc.Name, in.fault, n, in.call, strings.Join(evs, " "))
+				rp := map[string]any{"scenario": sc.Name, "inject": in, "n": n}
+				liveD := filepath.Join(d, liveRel)
 				if kill {
-					wantPost := hit.Step == "done"
+					// killed at that instant: what is left opens and is the complete pre- or the complete post-call state
 					if sc.Cache {
 						got, _ := os.ReadFile(liveD)
-						old, _ := os.ReadFile(live)
-						if !(bytes.Equal(got, old) || string(got) == postCache) {
-							res.Violate("kill-cache "+ck, "after "+where+" the cache file is neither the old nor the new document", map[string]any{"scenario": sc.Name, "inject": in, "n": n})
+						if !(bytes.Equal(got, oldCache) || string(got) == postCache) {
+							res.Violate("kill-cache "+ck, "after "+where+" the cache file is neither the old nor the new document", rp)
 						}
 					} else {
 						st, err := openAndObserve(d, kek)
 						if err != nil {
-							res.Violate("kill-open "+ck, fmt.Sprintf("after %s the database does not open: %v; directory: %v", where, err, listDir(filepath.Join(d, "db"))), map[string]any{"scenario": sc.Name, "inject": in, "n": n})
-						} else if wantPost && key(st) != key(post) {
-							res.Violate("kill-state "+ck, fmt.Sprintf("after %s (rename done) the database holds {%s}, want the post-call state {%s}", where, key(st), key(post)), nil)
-						} else if !wantPost && key(st) != key(pre) {
-							res.Violate("kill-state "+ck, fmt.Sprintf("after %s the database holds {%s}, want the pre-call state {%s}", where, key(st), key(pre)), map[string]any{"scenario": sc.Name, "inject": in, "n": n})
-						} else if !wantPost && hashFile(liveD) != preHash {
-							res.Violate("kill-bytes "+ck, "after "+where+" the live file's bytes changed although the call never completed", nil)
-						}
-						// leftovers must be harmless: a restarted server keeps working
-						if err == nil {
-							if msg := worksAfter(d, kek); msg != "" {
-								res.Violate("kill-after "+ck, "after "+where+" a restarted server cannot continue: "+msg, nil)
-							}
+							res.Violate("kill-open "+ck, fmt.Sprintf("after %s the database does not open: %v; directory: %v", where, err, listDir(filepath.Join(d, "db"))), rp)
+						} else if key(st) != key(pre) && key(st) != key(post) {
+							res.Violate("kill-state "+ck, fmt.Sprintf("after %s the database holds {%s}: neither the pre-call state {%s} nor the post-call state {%s}", where, key(st), key(pre), key(post)), rp)
+						} else if msg := worksAfter(d, kek); msg != "" {
+							res.Violate("kill-after "+ck, "after "+where+" a restarted server cannot continue: "+msg, rp)
 						}
 					}
-				} else {
-					// injected error: the call reports it, nothing changed on disk or in the served state, later calls succeed
-					emit(p, "error")
-					if cr.Class != "error" {
-						res.Violate("err-class "+ck, fmt.Sprintf("%s: the call reported %q, want an error", where, cr.Class), map[string]any{"scenario": sc.Name, "inject": in, "n": n})
+					os.RemoveAll(d)
+					continue
+				}
+				// injected error. If the call reports an error, disk and served state are exactly the pre-call state and later
+				// calls succeed; if the writer tolerates the failure and reports success, they are the post-call state.
+				emit(p, max(cr.LiveSize, 1), cr.Class)
+				switch {
+				case cr.Class != "ok" && cr.Class != "error":
+					res.Violate("err-class "+ck, fmt.Sprintf("%s: the call reported %q", where, cr.Class), rp)
+				case sc.Cache:
+					if cr.Class == "error" {
+						if got, err := os.ReadFile(filepath.Join(d, "after-error.cache")); err != nil || !bytes.Equal(got, oldCache) {
+							res.Violate("err-disk "+ck, where+": the write reported an error but the cache file is no longer the old document", rp)
+						}
+						if cr.Retry != "ok" {
+							res.Violate("err-retry "+ck, where+": the next write failed too: "+cr.Retry, rp)
+						}
+					} else if cr.CacheGot != postCache {
+						res.Violate("ok-disk "+ck, where+": the write reported success but the cache file is not the new document", rp)
 					}
-					if sc.Cache {
-						if cr.Retry != "ok" {
-							res.Violate("err-retry "+ck, where+": the next write failed too: "+cr.Retry, nil)
-						}
-					} else if sc.Name == "create" {
-						if cr.Retry != "ok" {
-							res.Violate("err-retry "+ck, where+": opening again failed: "+cr.Retry, nil)
-						}
-					} else {
-						if key(cr.State) != key(pre) {
-							res.Violate("err-served "+ck, fmt.Sprintf("%s: the running server now serves {%s}, want the pre-call state {%s}", where, key(cr.State), key(pre)), map[string]any{"scenario": sc.Name, "inject": in, "n": n})
-						}
-						if cr.Retry != "ok" {
-							res.Violate("err-retry "+ck, fmt.Sprintf("%s: retrying the call gave %q, want success", where, cr.Retry), nil)
-						} else if key(cr.After) != key(post) {
-							res.Violate("err-after "+ck, fmt.Sprintf("%s: after the retry the server serves {%s}, want {%s}", where, key(cr.After), key(post)), nil)
-						}
+				case sc.Name == "create":
+					if cr.Class == "error" && cr.Retry != "ok" {
+						res.Violate("err-retry "+ck, where+": opening again failed: "+cr.Retry, rp)
 					}
-					// no temporary file left behind
-					for _, e := range listDir(filepath.Dir(liveD)) {
-						if strings.Contains(e, ".tmp") {
-							res.Violate("err-temp "+ck, where+": temporary file left behind: "+e, nil)
-						}
+				case cr.Class == "error":
+					if key(cr.State) != key(pre) {
+						res.Violate("err-served "+ck, fmt.Sprintf("%s: the call reported an error but the running server now serves {%s}, want the pre-call state {%s}", where, key(cr.State), key(pre)), rp)
+					}
+					if st, err := openAndObserve(filepath.Join(d, "after-error"), kek); err != nil {
+						res.Violate("err-disk-open "+ck, fmt.Sprintf("%s: the call reported an error and the database file no longer opens: %v", where, err), rp)
+					} else if key(st) != key(pre) {
+						res.Violate("err-disk "+ck, fmt.Sprintf("%s: the call reported an error but the database file holds {%s}, want the pre-call state {%s}", where, key(st), key(pre)), rp)
+					}
+					if cr.Retry != "ok" {
+						res.Violate("err-retry "+ck, fmt.Sprintf("%s: retrying the call gave %q, want success", where, cr.Retry), rp)
+					} else if key(cr.After) != key(post) {
+						res.Violate("err-after "+ck, fmt.Sprintf("%s: after the retry the server serves {%s}, want {%s}", where, key(cr.After), key(post)), rp)
+					}
+				default: // reported success although a call failed: then it must really have happened
+					if key(cr.State) != key(post) {
+						res.Violate("ok-served "+ck, fmt.Sprintf("%s: the call reported success but the running server serves {%s}, want the post-call state {%s}", where, key(cr.State), key(post)), rp)
+					}
+					if st, err := openAndObserve(d, kek); err != nil || key(st) != key(post) {
+						res.Violate("ok-disk "+ck, fmt.Sprintf("%s: the call reported success but the database file does not hold the post-call state (%v)", where, err), rp)
 					}
 				}
 				os.RemoveAll(d)
@@ -578,78 +675,6 @@ func TestAtomicFile(t *testing.T) {
 	}
 	res.Set("cases", cases)
 	res.Write(t)
-}
-
-func countEv(evs []sysEvent, ev string) int {
-	n := 0
-	for _, e := range evs {
-		if e.Ev == ev {
-			n++
-		}
-	}
-	return n
-}
-
-// killPoint: the process was killed at the entry of a call strace never printed a
-// result for; the last (unfinished) line tells which one.
-func killPoint(p parsed, strace string) *sysEvent {
-	b, _ := os.ReadFile(strace)
-	lines := strings.Split(strings.TrimSpace(string(b)), "\n")
-	// find the last syscall line before "+++ killed"
-	var last string
-	for i := len(lines) - 1; i >= 0; i-- {
-		if strings.Contains(lines[i], "+++ killed") || strings.Contains(lines[i], "--- SIG") {
-			continue
-		}
-		last = lines[i]
-		break
-	}
-	inWin := false
-	for _, ln := range lines {
-		if strings.Contains(ln, `"MARK-BEGIN`) {
-			inWin = true
-		}
-	}
-	if !inWin {
-		return nil
-	}
-	m := regexp.MustCompile(`^\d+\s+(\w+)\((.*)`).FindStringSubmatch(last)
-	if m == nil {
-		return nil
-	}
-	call, args := m[1], m[2]
-	switch call {
-	case "openat":
-		if strings.Contains(args, ".tmp") && strings.Contains(args, "O_CREAT") {
-			return &sysEvent{Ev: "create", Step: "start"}
-		}
-	case "write":
-		if strings.HasPrefix(args, `2, "MARK-END`) {
-			return &sysEvent{Ev: "markend", Step: "done"}
-		}
-		if strings.HasPrefix(args, `2, "MARK-BEGIN`) {
-			return nil
-		}
-		// a write to the temporary file: fd known from the trace so far
-		for _, e := range p.Events {
-			if e.Ev == "create" {
-				return &sysEvent{Ev: "write", Step: "writing"}
-			}
-		}
-	case "fchmod":
-		return &sysEvent{Ev: "chmod", Step: "chmod"}
-	case "fsync", "fdatasync":
-		return &sysEvent{Ev: "fsync", Step: "chmodded"}
-	case "close":
-		for _, e := range p.Events {
-			if e.Ev == "fsync" {
-				return &sysEvent{Ev: "close", Step: "synced"}
-			}
-		}
-	case "renameat", "renameat2", "rename":
-		return &sysEvent{Ev: "rename", Step: "closed"}
-	}
-	return nil
 }
 
 // worksAfter: open the directory for real (leftover temporaries included) and perform a put.
